@@ -489,6 +489,9 @@ def run(c, facts):
     c.shared(R8, c15.r2_refresh_first, 'C15.R2', facts)
     c.shared(R8, c15.r3_reset_all, 'C15.R3', facts)
     c.shared(R8, c15.r6_doc_sync, 'C15.R6', facts)
+    import c10
+    R10 = c.rule('C13.R10', 'LOCATORS: every front end resolves and opens the file the user named: Url::join / Url::to_file_path, validity from the file system at load time (shared with C10.R7)')
+    c.shared(R10, c10.r7_locators, 'C10.R7', facts)
     c.run(r1_sole_writer, facts)
     c.run(r2_write_last, facts)
     c.run(r3_exit, facts)
